@@ -25,6 +25,18 @@ def keep(id, *edits, **kw):
 
 VARIANTS = [
     # ------------------------------------------------------------------ behaviour-preserving refactorings
+    keep('P-isacquired-single-return', (B, """        if existingLock is not None:
+            if existingLock[0] == clientID:
+                if currentTime - existingLock[1] < self.__autoUnlockTime:
+                    return True
+        return False
+""", """        return existingLock is not None and existingLock[0] == clientID and currentTime - existingLock[1] < self.__autoUnlockTime
+""")),
+    keep('P-reader-corruption-guard', (J, "            nextRecordData = self.__journalFile.read(currentOffset + 4, nextRecordSize)\n", "            if nextRecordSize < 16:\n                break\n            nextRecordData = self.__journalFile.read(currentOffset + 4, nextRecordSize)\n")),
+    keep('P-send-count-nonpositive', (T, "            if res < 0:\n                self.disconnect()\n                return False\n            if res == 0:\n                return False\n", "            if res < 0:\n                self.disconnect()\n                return False\n            if res <= 0:\n                return False\n")),
+    keep('P-created-at-wall-clock', (TR, "        self._lastConnectAttempt = {}", "        self._lastConnectAttempt = {}\n        self._createdAt = time.time()  # informational")),
+    keep('P-leader-adopt-explicit-none', (S, "            if self.__raftLeader != node:\n                self.__onLeaderChanged()", "            if self.__raftLeader is None or self.__raftLeader != node:\n                self.__onLeaderChanged()")),
+    keep('P-first-conflict-by-guard', (S, "                    if existingEntries[pos][2] != newEntries[pos][2]:\n                        conflictPos = pos\n                        break\n", "                    if conflictPos is None and existingEntries[pos][2] != newEntries[pos][2]:\n                        conflictPos = pos\n")),
     keep('P-rename-commitIndex', (S, '__raftCommitIndex', '__commitIdx')),
     keep('P-rename-votedFor', (S, '__votedForNodeId', '__votedFor')),
     keep('P-rename-log', (S, '__raftLog', '__journal')),
@@ -312,7 +324,8 @@ VARIANTS = [
         try:""", """        data = self.__readBuffer[4:4 + l]
         self.__readBuffer = self.__readBuffer[4 + l:]
         try:""")),
-    brk('B-parser-extra-state', ['C13'], 'R-parser-state', (T, "        data = self.__readBuffer[4:4 + l]\n        try:", "        data = self.__readBuffer[4:4 + l]\n        self.__lastFrameLen = l\n        try:")),
+    brk('B-parser-extra-state', ['C13'], 'R-parser-state', (T, "        data = self.__readBuffer[4:4 + l]\n        try:", "        data = self.__readBuffer[4:4 + l]\n        if l == getattr(self, '_lastFrameLen', -1):\n            self.__readBuffer = self.__readBuffer[4 + l:]\n            return None\n        self._lastFrameLen = l\n        try:")),
+    keep('P-parser-write-only-counter', (T, "        data = self.__readBuffer[4:4 + l]\n        try:", "        data = self.__readBuffer[4:4 + l]\n        self.__lastFrameLen = l\n        try:")),
     brk('B-write-prefix-wrong', ['C13'], 'R-write-fifo', (T, "self.__writeBuffer = self.__writeBuffer[res:]", "self.__writeBuffer = self.__writeBuffer[self.__sendBufferSize:]")),
     brk('B-bind-unknown-peer', ['C14'], 'R-attribution', (TR, """        if node is None and message != 'readonly':
             conn.disconnect()
@@ -405,6 +418,28 @@ VARIANTS = [
     keep('P-py3-range-items', (S, r'\bxrange\(', 'range('), (S, r' in iteritems\(([A-Za-z_.]+)\)', r' in \1.items()'), regex=True),
     brk('B-observer-connect-no-match-index', ['C18'], 'R-observer-bookkeeping', (S, "        self.__raftNextIndex[node] = self.__getCurrentLogIndex() + 1\n        self.__raftMatchIndex[node] = 0\n\n    def __onReadonlyNodeDisconnected", "        self.__raftNextIndex[node] = self.__getCurrentLogIndex() + 1\n\n    def __onReadonlyNodeDisconnected")),
     brk('B-remove-keeps-connection', ['C10'], 'R-removed-excluded', (S, "            self.__raftMatchIndex.pop(oldNode, None)\n            self.__transport.dropNode(oldNode)", "            self.__raftMatchIndex.pop(oldNode, None)")),
+    brk('B-isacquired-ignores-age', ['C16'], 'R-lock-guards', (B, """        if existingLock is not None:
+            if existingLock[0] == clientID:
+                if currentTime - existingLock[1] < self.__autoUnlockTime:
+                    return True
+        return False
+""", """        return existingLock is not None and existingLock[0] == clientID
+""")),
+    brk('B-reader-stops-at-empty-command', ['C08'], 'R-record-layout', (J, "            nextRecordData = self.__journalFile.read(currentOffset + 4, nextRecordSize)\n", "            if nextRecordSize <= 16:\n                break\n            nextRecordData = self.__journalFile.read(currentOffset + 4, nextRecordSize)\n")),
+    brk('B-clear-resets-commit-index', ['C08', 'C06'], 'R-commit-index-setter-only', (J, "    def clear(self):\n        self.__journal = []\n        self.__setLastRecordOffset(FIRST_RECORD_OFFSET)\n", "    def clear(self):\n        self.__journal = []\n        self.__setLastRecordOffset(FIRST_RECORD_OFFSET)\n        self.setRaftCommitIndex(1)\n")),
+    brk('B-short-write-keeps-prefix', ['C13'], 'R-write-fifo', (T, "            if res == 0:\n                return False\n            self.__writeBuffer = self.__writeBuffer[res:]", "            if res < len(self.__writeBuffer):\n                return False\n            self.__writeBuffer = self.__writeBuffer[res:]")),
+    brk('B-connecting-before-connect', ['C14'], 'R-connecting-registered', (T, "        self.__lastReadTime = monotonicTime()\n\n        try:\n            self.__socket.connect((host, port))", "        self.__lastReadTime = monotonicTime()\n        self.__state = CONNECTION_STATE.CONNECTING\n\n        try:\n            self.__socket.connect((host, port))")),
+    brk('B-retry-on-wall-clock', ['C14'], 'R-interval-clock', (TR, "monotonicTime() - self._lastConnectAttempt[node] < self._syncObj.conf.connectionRetryTime", "time.time() - self._lastConnectAttempt[node] < self._syncObj.conf.connectionRetryTime"), (TR, "        self._lastConnectAttempt[node] = monotonicTime()", "        self._lastConnectAttempt[node] = time.time()")),
+    brk('B-leader-adopted-silently', ['C18', 'C19'], 'R-leader-change-notified', (S, "            if self.__raftLeader != node:\n                self.__onLeaderChanged()", "            if self.__raftLeader is None:\n                self.__onLeaderChanged()")),
+    brk('B-snapshot-members-with-observers', ['C18', 'C10', 'C09'], 'R-payload-complete', (S, "cluster = self.__otherNodes | {self.__selfNode}", "cluster = self.__otherNodes | self.__readonlyNodes | {self.__selfNode}")),
+    brk('B-sort-reverse-emulated', ['C15'], 'R-delegate-agree', (B, "        self.__data.sort(reverse=reverse)", "        self.__data.sort()\n        if reverse:\n            self.__data.reverse()")),
+    brk('B-chunk-not-acknowledged', ['C11'], 'R-chunk-kinds', (S, "                        self.__recvTransmission += message['data']\n                        self.__sendNextNodeIdx(node, success=False, reset=False)\n                        return", "                        self.__recvTransmission += message['data']\n                        return")),
+    brk('B-child-does-not-exit', ['C09'], 'R-fork-child-exits', (SER, "            atomicReplace(tmpFile, self.__fileName)\n            if self.__useFork:\n                os._exit(0)", "            atomicReplace(tmpFile, self.__fileName)\n            if not self.__useFork:\n                os._exit(0)")),
+    brk('B-fork-when-not-asked', ['C09'], 'R-fork-child-exits', (SER, "        if self.__useFork:\n            pid = os.fork()", "        if not self.__useFork:\n            pid = os.fork()")),
+    brk('B-cut-at-last-conflict', ['C01', 'C04'], 'R-truncate-on-conflict', (S, "                        conflictPos = pos\n                        break\n", "                        conflictPos = pos\n")),
+    brk('B-extand-does-not-grow', ['C08', 'C11'], 'R-bounded-write', (J, "        with open(self.__fileName, 'ab') as f:\n            f.write(b'\\0' * bytesToAdd)\n", "        with open(self.__fileName, 'ab') as f:\n            pass\n")),
+    brk('B-extand-wrong-amount', ['C08', 'C11'], 'R-bounded-write', (J, "                self.__extand(newSize - currSize)", "                self.__extand(newSize - offset)")),
+    brk('B-envelope-not-wrapped', ['C13'], 'R-codec-inverse', (T, "        if self.sendRandKey:\n            message = (self.sendRandKey, message)\n", "")),
     brk('B-add-member-guard-and', ['C10'], 'R-removed-excluded', (S, "if newNode == self.__selfNode or newNode in self.__otherNodes:", "if newNode == self.__selfNode and newNode in self.__otherNodes:")),
     brk('B-fork-parent-forgets-child', ['C09'], 'R-serializer-idle', (SER, "            if pid != 0:\n                self.__pid = pid\n                return", "            if pid != 0:\n                return")),
     brk('B-apply-drops-kwargs', ['C11'], 'R-cmd-shapes', (S, "            funcID, args, newKwArgs = command\n            kwargs.update(newKwArgs)\n", "            funcID, args, newKwArgs = command\n")),
